@@ -1,8 +1,22 @@
+//! Harness over `p2panda-sync`: C22 (session event lifecycle), C23 (live-mode forwarding through
+//! the real `TopicSyncManager`), C25 (topic handshake under transcript faults).
+
+mod c22;
+mod c23;
+mod c25;
+mod io;
+
 use vh_common::Args;
 
 fn main() {
     let args = Args::parse();
+    vh_common::quiet_panics();
     match args.prop.as_str() {
-        other => panic!("vh-sync2 does not serve {other} yet"),
+        "C22" => c22::run(&args),
+        "C23" => c23::run(&args),
+        "C25" => c25::run(&args),
+        other => panic!("vh-sync2 does not serve {other}"),
     }
+    // Do not wait for runtimes that may still own an abandoned (spinning) task.
+    std::process::exit(0);
 }
